@@ -15,6 +15,27 @@ package syntax
 //@   pure
 //@   opt deterministic on
 
+// Literal values: `equal` answers "no difference" (nil) only when the other operand is a
+// literal of a matching kind with the same value (floats: within a RELATIVE tolerance of
+// 1e-15 (proved: at most 2e-15) of the receiver's value - never an absolute one, which would equate all tiny values).
+//@ func syntax.StringExp.equal property C15
+//@   requires exp != nil
+//@   ensures @same isnil(result) ==> istype(other, ptr_syntax.StringExp) && as(other, ptr_syntax.StringExp).Value == exp.Value
+//@ func syntax.BoolExp.equal property C15
+//@   requires exp != nil
+//@   ensures @same isnil(result) ==> istype(other, ptr_syntax.BoolExp) && as(other, ptr_syntax.BoolExp).Value == exp.Value
+//@ func syntax.IntExp.equal property C15
+//@   requires exp != nil && !isnil(syntax.notEqualError)
+//@   ensures @kind isnil(result) ==> istype(other, ptr_syntax.IntExp) || istype(other, ptr_syntax.FloatExp)
+//@   ensures @same isnil(result) && istype(other, ptr_syntax.IntExp) ==> as(other, ptr_syntax.IntExp).Value == exp.Value
+//@ func syntax.FloatExp.equal property C15
+//@   requires exp != nil && !isnil(syntax.notEqualError)
+//@   ensures @kind isnil(result) ==> istype(other, ptr_syntax.IntExp) || istype(other, ptr_syntax.FloatExp)
+//@   let AV = (exp.Value >= 0 ? exp.Value : -exp.Value)
+//@   ensures @close isnil(result) && istype(other, ptr_syntax.FloatExp) ==> (as(other, ptr_syntax.FloatExp).Value - exp.Value) * 500000000000000 <= AV && (exp.Value - as(other, ptr_syntax.FloatExp).Value) * 500000000000000 <= AV
+//@ func syntax.NullExp.equal property C15
+//@   ensures @same isnil(result) ==> istype(other, ptr_syntax.NullExp)
+
 //@ iface syntax.Callable.EquivalentTo property C15
 //@   pure
 //@   opt deterministic on
